@@ -293,6 +293,43 @@ class UndeclaredNameVisitor(NodeVisitor):
         else:
             self.names.discard(node.name)
 
+    def _visit_scope(self, *children: nodes.Node | None) -> None:
+        """Visit nodes that form a nested scope.  A name stored there (a
+        loop target, a macro parameter, a ``with`` target) is only hidden
+        inside that scope, not for what follows it.
+        """
+        inner = UndeclaredNameVisitor(self.names)
+
+        try:
+            for child in children:
+                if child is not None:
+                    inner.visit(child)
+        except VisitorExit:
+            pass
+
+        self.undeclared.update(inner.undeclared)
+
+        if self.undeclared >= self.names:
+            raise VisitorExit()
+
+    def visit_For(self, node: nodes.For) -> None:
+        self.visit(node.iter)
+        self._visit_scope(node.target, node.test, *node.body)
+        self._visit_scope(*node.else_)
+
+    def visit_Macro(self, node: nodes.Macro) -> None:
+        self._visit_scope(*node.args, *node.defaults, *node.body)
+
+    def visit_CallBlock(self, node: nodes.CallBlock) -> None:
+        self.visit(node.call)
+        self._visit_scope(*node.args, *node.defaults, *node.body)
+
+    def visit_With(self, node: nodes.With) -> None:
+        for value in node.values:
+            self.visit(value)
+
+        self._visit_scope(*node.targets, *node.body)
+
     def visit_Block(self, node: nodes.Block) -> None:
         """Stop visiting a blocks."""
 
